@@ -181,7 +181,7 @@ fn strings_upto(l: usize) -> Vec<String> {
 
 pub fn bounds(tier: Tier) -> Value {
     match tier {
-        Tier::Quick => json!({"one_arg_len": 3, "two_arg_len": 2, "three_arg_len": 0, "script_lines": 3}),
+        Tier::Quick => json!({"one_arg_len": 4, "two_arg_len": 2, "three_arg_len": 1, "script_lines": 3}),
         Tier::Thorough => json!({"one_arg_len": 5, "two_arg_len": 3, "three_arg_len": 2, "script_lines": 4}),
     }
 }
@@ -235,7 +235,7 @@ pub fn worker(w: &mut Worker) {
     }
 
     // Phase B: every argument string up to the bound, covering set of shapes and styles.
-    let (l1, l2, l3) = tier.pick((3, 2, 0), (5, 3, 2));
+    let (l1, l2, l3) = tier.pick((4, 2, 1), (5, 3, 2));
     let shapes: [(Option<&str>, Option<&str>); 3] = [(None, None), (None, Some("x")), (Some(":l"), Some("x"))];
     let trails = ["", " ", " # c", " \t"];
     let mut run_args = |w: &mut Worker, args: Vec<String>| {
